@@ -20,7 +20,7 @@ RULE = ('(a) grid: index read/assign/op-assign on int/byte/bool/string arrays as
         'parameter, literal temporary, and on strings (literal, local, global, parameter, element, byte-array view) with ~19 index values '
         'around 0, length, 8*length and the word extremes; / % /= %= in 10 forms with 60 operand pairs; VLA lengths of every element type '
         'with 18 values; two-fault statements where order decides; (b) random programs with 35% hostile indices/divisors; (c) time-travel '
-        'programs (nonlocal_preempt). Word sizes 2,3,4. non-trivial = the model predicts a fault, or the operand is within 2 of a boundary; '
+        'programs (nonlocal_preempt; incl. return expressions that call defeat functions) and literal divisors/indices. Word sizes 2,3,4. non-trivial = the model predicts a fault, or the operand is within 2 of a boundary; '
         'distinct by hash of (source, args, word)')
 ASSUMPTIONS = common.ISA_ASSUMPTIONS
 REQUIRED_HIDC_FUNCTIONS = ['codegen/generator:CodeGen.check_index', 'codegen/generator:CodeGen.arith_op_reg_arg']     # M-COV: deciding code never entered => inconclusive
@@ -104,7 +104,7 @@ def run_shard(spec):
         for tag, prog in faultgrid.vla_programs():
             items.append((tag, prog, [[str(n)] for n in faultgrid.vla_values(bits)], lambda a: abs(int(a[0])) <= 9))
         for tag, prog in faultgrid.nonlocal_programs():
-            items.append((tag, prog, [[str(k), str(d)] for k in (0, 60, 99, 600) for d in (0, 1)], lambda a: True))
+            items.append((tag, prog, [[str(k), str(d)] for k in (0, 1, 3, 60, 99, 600) for d in (0, 1)], lambda a: True))
         for i, (tag, prog, argsets, near) in enumerate(items):
             if i % spec['parts'] != spec['part'] or (i // spec['parts']) % spec['stride'] != spec['offset']:
                 continue
